@@ -213,6 +213,12 @@ func (s *ReverseSuffixSetSearcher) FindAt(haystack []byte, at int) *Match {
 		// Use reverse DFA with anti-quadratic guard to find match start
 		matchStart := s.reverseDFA.SearchReverseLimited(revCache, haystack, at, suffixEnd, minStart)
 		if matchStart >= 0 {
+			// The first suffix candidate gives the start; a greedy prefix may carry
+			// the match past it (\w+foo\d on "xfoo1foo2"), so the end comes from a
+			// forward search at that start.
+			if fs, fe, ok := s.pikevm.SearchAt(haystack, matchStart); ok && fs == matchStart {
+				return NewMatch(fs, fe, haystack)
+			}
 			return NewMatch(matchStart, suffixEnd, haystack)
 		}
 		if matchStart == lazy.SearchReverseLimitedQuadratic {
@@ -318,6 +324,10 @@ func (s *ReverseSuffixSetSearcher) findIndicesAtImpl(haystack []byte, at int, re
 		// Use reverse DFA with anti-quadratic guard to find match start
 		matchStart := s.reverseDFA.SearchReverseLimited(revCache, haystack, at, suffixEnd, minStart)
 		if matchStart >= 0 {
+			// see FindAt: the end needs a forward search from the start
+			if fs, fe, ok := s.pikevm.SearchAt(haystack, matchStart); ok && fs == matchStart {
+				return fs, fe, true
+			}
 			return matchStart, suffixEnd, true
 		}
 		if matchStart == lazy.SearchReverseLimitedQuadratic {
